@@ -520,6 +520,7 @@ func TestVerifC09Backoff(t *testing.T) {
 			return c09RunIso(r, c)
 		})
 		c09ExpiryPart(r, expired)
+		c09HitsPart(r, expired)
 	})
 	r.Finish()
 	os.Exit(0)
